@@ -20,6 +20,8 @@ import Flax.Proofs.LiftLoopVmap
 import Flax.Proofs.LiftLoopRemat
 import Flax.Proofs.LiftLoopFlat
 import Flax.Proofs.LiftLoopErrors
+import Flax.Proofs.LiftLoopDict
+import Flax.Proofs.LiftLoopRematFlat
 
 set_option linter.unusedSectionVars false
 
@@ -482,6 +484,51 @@ theorem roles_first_match {α : Type} (fs : List LFilter) (d : Vars α) (m : LFi
 example : groupDict [("params", 1), ("cache", 2), ("stats", 3)] [.name "cache", .deny (.name "params"), .tt]
     = [[("cache", 2)], [("stats", 3)], [("params", 1)]] := by decide
 
+/-! ## 6b. `publish_results_fn`: what is written back into the outer scope -/
+
+/-- **`publish_writes_every_mutable_collection`.** `publish_results_fn` is the sequence of writes
+`publishWrites`: one `put_variable` per variable of every MUTABLE collection of every out group, in order.
+Read-only collections contribute nothing and do not affect their siblings in the same group: every variable of
+every mutable collection of every group is among the writes; the last write to a `(collection, variable)` is
+what the scope holds afterwards; what no write touches is unchanged. -/
+theorem publish_writes_every_mutable_collection {α : Type} (m : LFilter) (outer : Vars α)
+    (groups : List (Vars α)) :
+    publish m outer groups = (publishWrites m groups).foldl (fun o w => putVar o w.1 w.2.1 w.2.2) outer ∧
+    (∀ g ∈ groups, ∀ cc ∈ g, inFilter m cc.1 = true → ∀ nv ∈ cc.2,
+      (cc.1, nv.1, nv.2) ∈ publishWrites m groups) ∧
+    (∀ pre w post, publishWrites m groups = pre ++ w :: post →
+      (∀ w' ∈ post, ¬ (w'.1 = w.1 ∧ w'.2.1 = w.2.1)) →
+      getVar (publish m outer groups) w.1 w.2.1 = some w.2.2) ∧
+    (∀ c n, (∀ w ∈ publishWrites m groups, ¬ (w.1 = c ∧ w.2.1 = n)) →
+      getVar (publish m outer groups) c n = getVar outer c n) := by
+  refine ⟨publish_eq_writes m outer groups, ?_, ?_, ?_⟩
+  · intro g hg cc hcc hm nv hnv
+    simp only [publishWrites, List.mem_flatMap]
+    exact ⟨g, hg, cc, hcc, by simp only [hm, if_true]; exact List.mem_map.2 ⟨nv, hnv, rfl⟩⟩
+  · intro pre w post hw hpost
+    rw [publish_eq_writes, hw, List.foldl_append, List.foldl_cons, foldl_put_preserve _ _ post _ hpost]
+    exact getVar_putVar_self _ _ _ _
+  · intro c n h
+    rw [publish_eq_writes]
+    exact foldl_put_preserve c n _ _ h
+
+/-- the defective variant seeded as C06_f: skip a whole out group as soon as one of its collections is
+read-only -/
+def publishGroupSkip {α : Type} (scopeMut : LFilter) (outer : Vars α) (groups : List (Vars α)) : Vars α :=
+  groups.foldl (fun o g =>
+    if g.all (fun cc => inFilter scopeMut cc.1) then
+      g.foldl (fun o cc => cc.2.foldl (fun o nv => putVar o cc.1 nv.1 nv.2) o) o
+    else o) outer
+
+/-- closed counter-example: group `{stats (mutable), params (read-only)}` — `publish_results_fn` writes the new
+`stats` value back, the group-level skip loses it -/
+theorem publish_group_skip_loses_updates :
+    let outer : Vars Int := [("params", [("w", exScalar 1)]), ("stats", [("n", exScalar 0)])]
+    let group : Vars Int := [("stats", [("n", exScalar 5)]), ("params", [("w", exScalar 1)])]
+    getVar (publish (.name "stats") outer [group]) "stats" "n" = some (exScalar 5) ∧
+    getVar (publishGroupSkip (.name "stats") outer [group]) "stats" "n" = some (exScalar 0) := by
+  decide
+
 /-! ## 7. error classes: which errors are flax's own, and exactly when they are raised
 
 `scan_eq_loop` / `vmap_eq_map` compare success and result.  The theorems below add the error side for the
@@ -728,18 +775,118 @@ theorem remat_level_keys (sr : List (LFilter × Bool)) (rngs : Rngs) (l i : Nat)
 
 example : nestedKey (.seed "params") ([2, 3].zip [1, 2]) = .split (.split (.seed "params") 2 1) 3 2 := rfl
 
+/-! ### the scope plumbing between two nesting levels -/
+
+/-- **merge, then regroup by the same filters = identity**: `scope_fn` of one level merges the groups into the
+inner scope, `group_collections` of the next level splits that scope by the same filters; when every key of
+group `g` has `g` as its first matching filter and keys are distinct, the groups come back unchanged -/
+theorem regroup_after_merge_identity {β : Type} (fs : List LFilter) (gs : List (List (String × β)))
+    (hrole : ∀ j (hj : j < gs.length), ∀ kv ∈ gs[j], firstIdx fs kv.1 = some j)
+    (hnd : (gs.flatten.map (·.1)).Nodup) :
+    mergeGroups gs = gs.flatten ∧ ∀ g, roleGroup (mergeGroups gs) fs g = gs.getD g [] :=
+  ⟨mergeGroups_flatten gs hnd, regroup_after_merge fs gs hrole hnd⟩
+
+example : mergeGroups [[("params", 1)], [("cache", 2), ("stats", 3)]] = [("params", 1), ("cache", 2), ("stats", 3)] ∧
+    roleGroup (mergeGroups [[("params", 1)], [("cache", 2), ("stats", 3)]]) [.name "params", .tt] 1
+      = [("cache", 2), ("stats", 3)] := by decide
+
+/-- **publish, then re-filter = identity** for a structure-preserving out group: if the out group `G` has exactly
+the scope's collections with exactly their variable names in the same order (what the carry-structure check of
+`lax.scan` enforces for carried collections), names are distinct and all its collections are mutable, then
+`publish_results_fn` turns the scope into `G` itself — so filtering the mutable collections and regrouping them
+one level up returns `G` -/
+theorem publish_refilter_identity {α : Type} (m : LFilter) (V G : Vars α)
+    (hs : V.map (fun cc => (cc.1, cc.2.map (·.1))) = G.map (fun cc => (cc.1, cc.2.map (·.1))))
+    (hnd : (G.map (·.1)).Nodup) (hvn : ∀ cc ∈ G, (cc.2.map (·.1)).Nodup) (hm : ∀ cc ∈ G, inFilter m cc.1 = true) :
+    publish m V [G] = G ∧ (publish m V [G]).filter (fun kv => inFilter m kv.1) = G := by
+  have h : publish m V [G] = G := by
+    simp only [publish, List.foldl_cons, List.foldl_nil]
+    exact publish_same_structure m V G hs hnd hvn hm
+  exact ⟨h, by rw [h]; exact List.filter_eq_self.2 hm⟩
+
+example : publish (.name "stats") [("stats", [("n", exScalar 0), ("s", exScalar 1)])]
+    [[("stats", [("n", exScalar 5), ("s", exScalar 6)])]] = [("stats", [("n", exScalar 5), ("s", exScalar 6)])] := by
+  decide
+
+/-- **nested stacking and nested slicing are inverse at the multi-index**: stacking per-inner-iteration values
+along the axis, then the per-outer-iteration stacks along the axis again, and slicing twice gives the value of
+iteration `(i₀, i₁)` back -/
+theorem nested_stack_slice {α : Type} [Inhabited α] [DecidableEq α] (sh : List Nat) (ax : Int)
+    (rows : List (List (Arr α))) (inner : List (Arr α)) (S : Arr α) (i0 i1 : Nat)
+    (hin : mapE (fun row => stackAt ax sh row) rows = .ok inner)
+    (hS : stackAt ax ((inner.head?.map (·.shape)).getD []) inner = .ok S)
+    (hwf : ∀ row ∈ rows, ∀ y ∈ row, Arr.WF y = true)
+    (h0 : i0 < rows.length) (h1 : i1 < (rows.getD i0 []).length) :
+    ∃ R, takeAt ax i0 S = .ok R ∧ takeAt ax i1 R = .ok ((rows.getD i0 []).getD i1 default) := by
+  obtain ⟨hlen, hrows⟩ := mapE_eq_ok hin
+  have hi0 : i0 < inner.length := by omega
+  have hrow := hrows i0 h0 hi0
+  have hwfi : ∀ y ∈ inner, Arr.WF y = true := by
+    intro y hy
+    obtain ⟨k, hk, rfl⟩ := List.getElem_of_mem hy
+    have := hrows k (by omega) hk
+    unfold stackAt at this
+    split at this
+    · simp only [Arr.stack] at this
+      split at this
+      · injection this with this; rw [← this]; exact Arr.wf_ofFn _ _
+      · cases this
+    · cases this
+  refine ⟨inner[i0], stack_slice _ inner ax S hS hwfi i0 hi0, ?_⟩
+  have hr : rows.getD i0 [] = rows[i0] := by simp [List.getD_eq_getElem?_getD, h0]
+  rw [hr] at h1 ⊢
+  have := stack_slice sh rows[i0] ax inner[i0] hrow (hwf _ (List.getElem_mem h0)) i1 h1
+  rw [this]
+  simp [List.getD_eq_getElem?_getD, h1]
+
+/-! ### `remat_scan` = ONE flat loop, when only carried collections, carry and rngs are lifted -/
+
+/-- **`remat_scan_eq_flat_loop` for configurations without axis and without broadcast collections**
+(`variable_axes = {}`, `variable_broadcast = False`; any `variable_carry`, any `split_rngs`, any `lengths` with
+positive entries, any body).  The scope holds the carried collections (distinct collection and variable names).
+Then `lift.remat_scan(body, lengths)` is ONE threaded loop of `∏ lengths` iterations over the multi-indices in
+row-major order: iteration `idx` calls the body on the current carried collections and carry, with the
+mutability filter of depth `len(lengths)` and the rng streams regrouped / split once per level along `idx`
+(`rngsAt`); the carried collections of the body's result (its mutable carry-role collections) and its carry are
+threaded, the carry-structure check applies at every step.  All the plumbing between the levels (merge and
+regroup, publish and re-filter, the per-level broadcast pass) is proved to be the identity here. -/
+theorem remat_scan_eq_flat_loop_carry_only {α : Type} [Inhabited α] (rc : RematCfg) (hax : rc.axes = [])
+    (hb : rc.bcast = .ff) (body : Body α) (lengths : List Nat) (hne : lengths ≠ []) (hnz : ∀ l ∈ lengths, l ≠ 0)
+    (m : LFilter) (V : Vars α) (hV : InvC rc V) (r : Rngs) (c xs : List (Arr α)) :
+    opt (rematScan rc true body lengths m V r c xs) =
+      (runG (flatStep rc body m r lengths) sameStruct (V, c) (allIdx lengths)).map
+        (fun res => (res.1.1, res.1.2, [])) ∧
+    (allIdx lengths).length = lengths.foldr (· * ·) 1 := by
+  refine ⟨?_, allIdx_length lengths⟩
+  rw [rematScan_opt]
+  have := nested_eq_flat_carryOnly rc hax hb body m r lengths lengths [] [] rfl rfl hne hnz V c hV
+  simp only [List.length_nil, mAt, List.zip_nil_left, rngsAt, List.nil_append, List.map_id'] at this
+  rw [this]
+  cases runG (flatStep rc body m r lengths) sameStruct (V, c) (allIdx lengths) <;> rfl
+
+/-- the hypotheses are satisfiable: a scope with one carried counter collection -/
+example : InvC (α := Int) { bcast := .ff, carry := .name "K", axes := [], splitRngs := [(.tt, true)] }
+    [("K", [("n", exScalar 0)])] := by
+  refine ⟨by decide, ?_, ?_⟩
+  · intro cc hcc; simp at hcc; subst hcc; decide
+  · intro cc hcc; simp at hcc; subst hcc; decide
+
 /- Full statement aimed at (DESIGN.md `remat_scan_eq_flat_loop`):
      `remat_scan(body, lengths)` equals ONE explicit loop of `∏ lengths` iterations in lexicographic index
      order, iteration `(i₀, i₁, …)` seeing slice `[i₀][i₁]…` of every axis collection and the key
      `split(split(k, l₀)[i₀], l₁)[i₁] …` of every split stream.
-   Proved: (a) `remat_scan` is the nest of explicit loops, one per entry of `lengths`, each of them the explicit
-   loop of `scan_eq_loop` (below); (b) a nest of threaded loops is one flat loop in row-major order with the
-   carry threaded through all iterations (`nested_loops_eq_flat_loop`).
-   Missing to glue (a) to (b): that the scope plumbing BETWEEN two levels is the identity — merging the sliced
-   groups into the inner scope and regrouping them by the same filters gives the groups back, publishing the
-   inner results and re-filtering them gives the inner results (dict algebra up to key order), nested
-   `take`/`stack` = `take`/`stack` at the multi-index — and that the per-level broadcast pass is idempotent
-   (needs the body's broadcast outputs to be loop-invariant).  Tied by the correspondence run (flat-loop oracle). -/
+   Proved: (a) `remat_scan` is the nest of explicit loops, one per entry of `lengths` (the theorem below);
+   (b) `nested_loops_eq_flat_loop`: a nest of threaded loops is one flat loop in row-major order;
+   (c) `remat_scan_eq_flat_loop_carry_only`: (a) and (b) glued — ONE flat loop — for configurations that lift no
+   axis and no broadcast collection; (d) the three plumbing identities in general form:
+   `regroup_after_merge_identity`, `publish_refilter_identity`, `nested_stack_slice`.
+   Still missing for the general statement: threading (d) through `loopSpec` for AXIS collections (the per-level
+   slices of the slices, and the published stacked results, whose variable order may differ from the scope's
+   when the body creates variables — needs dict equality up to key order, or the hypothesis that the body keeps
+   the variable names of every axis collection), `In`/`Out`-restricted axes (in- and out-roles differ), and
+   idempotence of the per-level broadcast pass for BROADCAST collections (needs the hypothesis that the body's
+   broadcast outputs on an already initialised scope are that scope's broadcast collections).
+   Tied by the correspondence run (flat-loop oracle) in those cases. -/
 theorem remat_scan_eq_nested_loops_partial {α : Type} [Inhabited α] (rc : RematCfg) (verdict : Bool)
     (body : Body α) (lengths : List Nat) (m : LFilter) (v : Vars α) (r : Rngs) (c xs : List (Arr α)) :
     opt (rematScan rc verdict body lengths m v r c xs) =
